@@ -96,3 +96,49 @@ Proof.
   destruct (lookup s' a); [destruct (msg_complete _)|]; cbn [fst];
     first [now apply lookup_remove_other | now apply lookup_put_other].
 Qed.
+
+(* a returned message always removes the entry of its sequence *)
+Lemma seq_add_some_removed o fid d now r : snd (seq_add o fid d now) = Some r -> fst (seq_add o fid d now) = None.
+Proof. unfold seq_add. destruct o as [m|]; [destruct (msg_complete _)|]; cbn [fst snd]; congruence. Qed.
+
+Lemma seq_start_some_removed o fid c d now r : snd (seq_start o fid c d now) = Some r -> fst (seq_start o fid c d now) = None.
+Proof.
+  unfold seq_start. destruct (count_new fid); [|cbn [fst snd]; congruence].
+  destruct o as [m|]; destruct (msg_complete _); cbn [fst snd]; congruence.
+Qed.
+
+(* sequences whose announced count exceeds the vector limit never complete *)
+Definition stuck (c : N) (m : fmsg) : Prop := total m = Some c /\ frags m = [] /\ received m = 0.
+
+Lemma stuck_add c m fid d now : 0 < c -> stuck c m ->
+  stuck c (msg_add m fid d now) /\ msg_complete (msg_add m fid d now) = false.
+Proof.
+  intros Hc (Ht & Hf & Hr). unfold msg_add.
+  assert (Hinc : forall m', stuck c m' -> msg_complete m' = false).
+  { intros m' (Ht' & _ & Hr'). unfold msg_complete. rewrite Ht', Hr'. apply N.eqb_neq. lia. }
+  assert (Hs : stuck c (touch m now)) by (repeat split; assumption).
+  destruct (fid =? 0); [split; [exact Hs|now apply Hinc]|].
+  cbn [total touch]. rewrite Ht. unfold fill_slot. cbn [frags touch]. rewrite Hf.
+  destruct ((0 <? fid) && (fid <=? c)); cbn [nth_err]; split; try exact Hs; now apply Hinc.
+Qed.
+
+Lemma stuck_start c cache d now : max_fragments_vec < c -> c <= max_fragment_count ->
+  exists m, seq_start None c cache d now = (Some m, None) /\ stuck c m.
+Proof.
+  intros H1 H2. unfold seq_start, count_new.
+  assert (E0 : c =? 0 = false) by (apply N.eqb_neq; unfold max_fragments_vec in H1; lia).
+  assert (E1 : max_fragment_count <? c = false) by (apply N.ltb_ge; exact H2).
+  rewrite E0, E1.
+  assert (Hs : stuck c (msg_new (Some c) cache now)).
+  { unfold stuck, msg_new, exceeds_vec_limit. cbn [total frags received].
+    replace (max_fragments_vec <? c) with true by (symmetry; now apply N.ltb_lt). auto. }
+  destruct (stuck_add c _ c d now ltac:(unfold max_fragments_vec in H1; lia) Hs) as (Hs' & Hinc).
+  rewrite Hinc. eexists; split; [reflexivity|exact Hs'].
+Qed.
+
+Lemma stuck_seq_add c m fid d now : 0 < c -> stuck c m ->
+  exists m', seq_add (Some m) fid d now = (Some m', None) /\ stuck c m'.
+Proof.
+  intros Hc Hs. unfold seq_add. destruct (stuck_add c m fid d now Hc Hs) as (Hs' & Hinc).
+  rewrite Hinc. eexists; split; [reflexivity|exact Hs'].
+Qed.
